@@ -27,14 +27,14 @@ def iterOf? (j : Json) : Option Iter := do
   let lag ← jNat? (← jField? j "lag")
   let gone ← jBool? (← jField? j "gone")
   let required ← jBool? (← jField? j "required")
-  let patchInit ← jBool? (← jField? j "patchInit")
+  let carried ← jBool? (← jField? j "carried")         -- required, like `paused`: never defaulted
   let patchMid ← jBool? (← jField? j "patchMid")
   let patched ← jOpt? verOf? (← jField? j "patched")
   let tp ← jInt? (← jField? j "tp")
   let tret ← jInt? (← jField? j "tret")
   let listed ← match jField? j "listed" with | some b => jBool? b | none => some false
   let paused ← jBool? (← jField? j "paused")     -- required: an iteration without it is rejected, not defaulted
-  some { ver, now, dur, pressure, wake, lag, gone, required, patchInit, patchMid, patched, tp, tret, listed, paused }
+  some { ver, now, dur, pressure, wake, lag, gone, required, carried, patchMid, patched, tp, tret, listed, paused }
 
 /-- `{"event": {...}}`, `{"retire": t}` or `{"background": [ver, t]}` -/
 def stepOf? (j : Json) : Option Step :=
@@ -60,6 +60,7 @@ def outcomeJson (o : Outcome) : Json :=
     ("low", .arr (o.low.map (fun (s, t) => Json.arr #[.str (stageStr s), intJson t])).toArray),
     ("slept", optJson (fun (s : Slept) => Json.arr #[intJson s.tEnd, .bool s.timedOut]) o.slept),
     ("achieved", .bool o.achieved), ("held", .bool o.held),
+    ("left", intJson o.left), ("wait", optJson intJson o.wait),
     ("entered", optJson intJson o.entered), ("handlers", optJson intJson o.handlers)]
 
 /-- Replays a whole life of one object's stream; one record per step. -/
@@ -69,7 +70,7 @@ def replay (T idle : Int) : Cfg → List Step → List Json
     let c' := next T c st
     let rec_ := match st with
       | .event it => Json.mkObj [("ok", .bool (okStep idle c st)), ("outcome", outcomeJson (outcomeAt T c it)),
-                                 ("after", stateJson c'.s)]
+                                 ("patchInit", .bool it.patchInit), ("after", stateJson c'.s)]
       | .retire _ => Json.mkObj [("ok", .bool (okStep idle c st)), ("retired", .bool true), ("after", stateJson c'.s)]
       | .background _ _ => Json.mkObj [("ok", .bool (okStep idle c st)), ("background", .bool true), ("after", stateJson c'.s)]
     rec_ :: replay T idle c' rest
